@@ -50,4 +50,14 @@ static inline double d_abs(double x) { return d_frombits(d_bits(x) & ~D_SIGN); }
 /* |z| depends only on |re| and |im| (hypot) */
 static inline double c_abs(cplx z) { return __CPROVER_uninterpreted_cabs(d_abs(z.re), d_abs(z.im)); }
 #endif
+/* ---- <complex> free functions on a complex argument (default names of tools/ast2c.py when the spec has no //@free rule):
+ *   std::real / std::imag  = the two parts;  std::conj(z) = (re, -im);
+ *   std::norm(z) = re*re + im*im  (libstdc++ <complex> _Norm_helper: exactly this expression, also for floating types);
+ *   std::abs(z)  = c_abs above;   std::arg(z) = atan2(im, re): opaque (TRUSTED: a function of the value; nothing else is known). */
+static inline double c_real(cplx z) { return z.re; }
+static inline double c_imag(cplx z) { return z.im; }
+static inline cplx c_conj(cplx z) { cplx c = {z.re, D_NEG(z.im)}; return c; }
+static inline double c_norm(cplx z) { return D_ADD(D_MUL(z.re, z.re), D_MUL(z.im, z.im)); }
+double __CPROVER_uninterpreted_carg(double, double);
+static inline double c_arg(cplx z) { return __CPROVER_uninterpreted_carg(z.re, z.im); }
 #endif
